@@ -1453,10 +1453,21 @@ class Runner:
         if ctx.violations:
             raise Stop()
         # observe
-        await self.check_full(kind, outcome)
-        if ctx.violations:
+        try:
+            await self.check_full(kind, outcome)
+            if ctx.violations:
+                raise Stop()
+            await self.dump_all(kind, outcome, name)
+        except Died as exc:
+            if ok:
+                raise
+            # the command was refused, so nothing has changed - and a
+            # mailbox that opened before the refusal opens after it
+            ctx.report('no-but-state-changed:%s:observation-kills-connection'
+                       % kind, '%s %r answered NO; the observation that '
+                       'follows (%s) gets no answer, the connection is closed'
+                       % (kind, name, exc))
             raise Stop()
-        await self.dump_all(kind, outcome, name)
         ctx.count('steps_compared')
         if not ok:
             ctx.count('refusals_unchanged_checked')
